@@ -86,8 +86,8 @@ func execSctpCAnswer(toks []string) string {
 	be.mu.Lock()
 	var out []string
 	type row struct {
-		id     uint32
-		s      string
+		id uint32
+		s  string
 	}
 	var rows []row
 	for _, w := range be.writes {
